@@ -219,7 +219,7 @@ def main(seed):
         def pytest_runtest_logreport(self, report):
             if report.failed:
                 failed.append(report.nodeid)
-    os.chdir("/repo")
+    os.chdir(os.environ.get("VERIF_REPO") or "/repo")
     rc = pytest.main(["-q", "-p", "no:cacheprovider", "--no-header", "-ra", "tests"], plugins=[Plugin()])
     unexpected = sorted(set(f for f in failed if f not in benign))
     print("V2 repository test-suite under the shims: pytest exit code %s; failing tests: %s; of these benign (listed): %s; "
